@@ -399,7 +399,7 @@ func shortVal(v ssa.Value) string {
 
 // BestEffort: a swallowed site that is acceptable, keyed by enclosing top-level function + callee identifier.
 type BestEffort struct {
-	Func   string // top-level function (short qualified)
+	Func   string // top-level function (short qualified); "*" = the callee is best-effort wherever it is called (the reason must be about the callee itself)
 	Callee string // callee identifier (method/function name)
 	Reason string
 	// ArgFrom narrows the row to sites one of whose arguments derives from a call to this function (discriminates two
@@ -484,7 +484,7 @@ func runFailEdgeFiltered(c *Ctx, r *Report, rule string, fe *failEdge, inScope f
 			continue
 		}
 		matched := false
-		for _, row := range tbl[top+"|"+ident] {
+		for _, row := range append(append([]BestEffort{}, tbl[top+"|"+ident]...), tbl["*|"+ident]...) {
 			if row.ArgFrom != "" {
 				if s.Call == nil {
 					continue
